@@ -3,10 +3,16 @@
 package main
 
 import (
+	"bufio"
+	"bytes"
+	"encoding/json"
 	"fmt"
+	"io"
 	"os"
+	"os/exec"
 	"strconv"
 	"strings"
+	"sync"
 
 	"nvharness/lib/corr"
 	_ "nvharness/lib/quiet"
@@ -23,6 +29,8 @@ func main() {
 		extract(os.Args[2], os.Args[3])
 	case "corr":
 		corr.Main(spec(), os.Args[2:])
+	case "worker":
+		workerMain()
 	default:
 		os.Exit(2)
 	}
@@ -32,7 +40,7 @@ func main() {
 
 var modes = map[string]bool{"pipe": true, "rt": true, "wt": true, "tcp": true}
 
-func runCase(c corr.Case) (res corr.Result) {
+func runCaseLocal(c corr.Case, emit func(i int, out string)) (res corr.Result) {
 	var w *world
 	defer func() {
 		if w != nil {
@@ -84,9 +92,12 @@ func runCase(c corr.Case) (res corr.Result) {
 		}()
 		if w != nil && w.dead != "" {
 			fmt.Fprintf(os.Stderr, "c16: harness failure in script %q line %d: %s\n", c.Lines, i, w.dead)
-			os.Exit(2)
+			os.Exit(exitHarness)
 		}
 		res.Outs = append(res.Outs, out)
+		if emit != nil {
+			emit(i, out)
+		}
 	}
 	if w != nil {
 		w.finish(&res)
@@ -99,6 +110,136 @@ func (w *world) finish(res *corr.Result) {
 		res.Hits = append(res.Hits, corr.Hit{Key: h.key, What: h.what})
 	}
 	w.hits = nil
+}
+
+// ---------------------------------------------------------------- process isolation
+//
+// Every script runs in a worker child process (`c16 worker`, one per corr process, reused): a panic that escapes a
+// goroutine of the code under test kills the process it runs in, and that must become a result line and a monitor
+// hit with a replay, not a harness error. The worker streams one output line per script line, so what was observed
+// before the crash is kept.
+
+const exitHarness = 3
+
+type wmsg struct {
+	I    int        `json:"i"`
+	Out  string     `json:"out,omitempty"`
+	Done bool       `json:"done,omitempty"`
+	Hits []corr.Hit `json:"hits,omitempty"`
+}
+
+func workerMain() {
+	in := bufio.NewReaderSize(os.Stdin, 1<<20)
+	out := bufio.NewWriter(os.Stdout)
+	enc := json.NewEncoder(out)
+	for {
+		line, err := in.ReadBytes('\n')
+		if len(line) > 0 {
+			var lines []string
+			if json.Unmarshal(line, &lines) != nil {
+				os.Exit(exitHarness)
+			}
+			res := runCaseLocal(corr.Case{Lines: lines}, func(i int, o string) {
+				_ = enc.Encode(wmsg{I: i, Out: o})
+				_ = out.Flush()
+			})
+			_ = enc.Encode(wmsg{Done: true, Hits: res.Hits})
+			_ = out.Flush()
+		}
+		if err != nil {
+			return
+		}
+	}
+}
+
+type worker struct {
+	cmd    *exec.Cmd
+	stdin  io.WriteCloser
+	stdout *bufio.Reader
+	stderr *bytes.Buffer
+}
+
+var (
+	wkMu sync.Mutex
+	wk   *worker
+)
+
+func startWorker() (*worker, error) {
+	cmd := exec.Command(os.Args[0], "worker")
+	stdin, err := cmd.StdinPipe()
+	if err != nil {
+		return nil, err
+	}
+	stdout, err := cmd.StdoutPipe()
+	if err != nil {
+		return nil, err
+	}
+	w := &worker{cmd: cmd, stdin: stdin, stdout: bufio.NewReaderSize(stdout, 1<<20), stderr: &bytes.Buffer{}}
+	cmd.Stderr = w.stderr
+	if err := cmd.Start(); err != nil {
+		return nil, err
+	}
+	return w, nil
+}
+
+func runCase(c corr.Case) (res corr.Result) {
+	if os.Getenv("C16_INPROCESS") != "" {
+		return runCaseLocal(c, nil)
+	}
+	wkMu.Lock()
+	defer wkMu.Unlock()
+	var err error
+	if wk == nil {
+		if wk, err = startWorker(); err != nil {
+			fmt.Fprintln(os.Stderr, "c16: cannot start worker:", err)
+			os.Exit(2)
+		}
+	}
+	req, _ := json.Marshal(c.Lines)
+	_, _ = wk.stdin.Write(append(req, '\n'))
+	for {
+		line, rerr := wk.stdout.ReadBytes('\n')
+		var m wmsg
+		if rerr == nil && json.Unmarshal(line, &m) == nil {
+			if m.Done {
+				res.Hits = m.Hits
+				return res
+			}
+			res.Outs = append(res.Outs, m.Out)
+			continue
+		}
+		// the worker died
+		_ = wk.stdin.Close()
+		werr := wk.cmd.Wait()
+		msg := wk.stderr.String()
+		wk = nil
+		if ee, ok := werr.(*exec.ExitError); ok && ee.ExitCode() == exitHarness {
+			fmt.Fprint(os.Stderr, msg)
+			os.Exit(2)
+		}
+		if !strings.Contains(msg, "panic:") && !strings.Contains(msg, "fatal error:") {
+			fmt.Fprintf(os.Stderr, "c16: worker died without a Go panic (%v): %s\n", werr, msg)
+			os.Exit(2)
+		}
+		what := msg
+		if i := strings.Index(what, "\n\n"); i > 0 {
+			what = what[:i]
+		}
+		if len(what) > 600 {
+			what = what[:600]
+		}
+		crashedAt := len(res.Outs)
+		for len(res.Outs) < len(c.Lines) {
+			res.Outs = append(res.Outs, "crash:process-died")
+		}
+		key := "C16:process:panic-escapes-goroutine"
+		if strings.Contains(msg, "c16-handler-panic") || strings.Contains(msg, "loopReceive") {
+			key = "C16:loopReceive:handler-panic-escapes"
+		}
+		res.Hits = append(res.Hits, corr.Hit{Key: key, What: fmt.Sprintf("the process died at script line %d (%s): %s", crashedAt,
+			c.Lines[crashedAt%len(c.Lines)], strings.ReplaceAll(what, "\n", " | "))})
+		return res
+	}
 }
 
 // ---------------------------------------------------------------- generators
@@ -319,9 +460,9 @@ func spec() corr.Spec {
 			case "quick":
 				return 6000
 			case "thorough":
-				return 40000
+				return 150000
 			}
-			return 60000
+			return 200000
 		},
 		Shards: func(tier string) int {
 			if tier == "quick" {
